@@ -266,6 +266,10 @@ func main() {
 				for _, f := range check(r) {
 					if !seen[f.Sig] {
 						seen[f.Sig] = true
+						if err := vrt.Confirm(vrt.Config{MaxPoints: 400000, MaxVTime: 3 * time.Hour}, r, body, 3); err != nil {
+							fmt.Fprintln(os.Stderr, "ENGINE ERROR:", err)
+							os.Exit(2)
+						}
 						out.Violations = append(out.Violations, lib.Violation{Sig: f.Sig, Desc: fmt.Sprintf("event %s in state %s, schedule %v: %s", sc.Event, sc.State, r.ChoiceSeq(), f.Desc),
 							Replay: map[string]interface{}{"scenario": sc, "schedule": r.ChoiceSeq(), "log": r.Log}})
 					}
